@@ -551,6 +551,7 @@ func vcIsSST(t SymbolTable) bool                           { v, ok := t.(*sst); 
 func vcAsSST(t SymbolTable) *sst                           { v, _ := t.(*sst); return v }
 func vcIsBuilder(t SymbolTableBuilder) bool                { v, ok := t.(*symbolTableBuilder); return ok && v != nil }
 func vcAsBuilder(t SymbolTableBuilder) *symbolTableBuilder { v, _ := t.(*symbolTableBuilder); return v }
+func vcIsWrapper(s bufseq) bool                            { c, ok := s.(*container); return ok && c.code == 0xE0 }
 func vcIsLST(t SymbolTable) bool                           { v, ok := t.(*lst); return ok && v != nil }
 func vcAsLST(t SymbolTable) *lst                           { v, _ := t.(*lst); return v }
 func vcAsBinaryWriter(w Writer) *binaryWriter              { v, _ := w.(*binaryWriter); return v }
